@@ -19,7 +19,10 @@ META = {
             "the old code is kept as _v0 with a refuting witness, like the subsequence defect 5481700d and the network-byte defect "
             "9903a5a0); both Merkle-path flavours: check passes => subject = tx hash and the bit-indexed fold equals the root; "
             "checkVbkPopTx/checkVbkTx/checkATV/checkVTB/checkVbkBlocks pipelines over oracle section variables: context contiguous + PoW, "
-            "address derived + signature verifies, publication data names the chain and authenticates the header; checkPopData => limits, "
+            "address derived + signature verifies, publication data names the chain and authenticates the header; checkProofOfWork (BTC and "
+            "VBK) and checkVbkBlockPlausibility are modelled clause by clause over the proved compact decoder (only the hash is an oracle): "
+            "accepted => compact value not negative/overflowing, target nonzero, target <= pow limit (VBK: difficulty >= minimum), hash <= "
+            "target; checkPopData => limits, "
             "all payloads valid, NoDup ids; the checked flags are only set after a complete success for every call sequence; honest "
             "payloads are accepted under explicit premises on the oracles. Completeness of split embeddings holds under the premise 'no "
             "byte 0x92 before the magic' and is REFUTED without it (C05_split_complete_refuted = confirmed F11, C05_split_resync_refuted): "
@@ -262,8 +265,34 @@ def run_embed(ctx, model, harness, harness_asan):
 # ---------------------------------------------------------------------------------------------
 # shape of the harness world (checked against its `world` line)
 WORLD = {"nvtb": 5, "natv": 3, "ctx": 3, "btclayers": 3, "vtblayers": 5, "atvlayers": 4,
-         "vtbidx": "0,1,2,3,4", "atvidx": "0,1,2", "btcidx": "0,1,2,3,4"}
+         "vtbidx": "0,1,2,3,4", "atvidx": "0,1,2", "btcidx": "0,1,2,3,4", "limit": "%x" % ((1 << 255) - 1)}
+BTC_LIMIT = (1 << 255) - 1                   # regtest pow limit (checked against the world line)
 LEAVES = {"vtb": 5, "atv": 3, "btc": 7}      # transactions per Merkle tree in the harness world
+
+
+def compact(bits):
+    """Bitcoin's nBits -> (target, negative, overflow), written from the format description"""
+    size, mant = bits >> 24, bits & 0x7fffff
+    if size <= 3:
+        mant >>= 8 * (3 - size)
+        t = mant
+    else:
+        t = mant << (8 * (size - 3))
+    neg = mant != 0 and (bits & 0x800000) != 0
+    ovf = mant != 0 and (size > 34 or (mant > 0xff and size > 33) or (mant > 0xffff and size > 32))
+    return t, neg, ovf
+
+
+def btc_bits_valid(bits):
+    t, neg, ovf = compact(bits)
+    return (not neg) and (not ovf) and 0 < t <= BTC_LIMIT
+
+
+# nBits aimed at every clause of checkProofOfWork(BtcBlock): at/below the limit, limit+1, far above (hash still below
+# the limit), overflow, sign bit, zero mantissa, tiny targets
+BTC_BITS = [0x207fffff, 0x207ffffe, 0x203fffff, 0x1f7fffff, 0x22000001, 0x21007fff,
+            0x21008000, 0x2100ffff, 0x2100c000, 0x2100ff00, 0x2200ffff, 0x23000001, 0xff000001, 0x20800001, 0x04800001,
+            0x20000000, 0x00000000, 0x01003456, 0x02008000, 0x1d00ffff]
 
 
 def index_bit_matters(nleaves, leaf, k, levels):
@@ -397,6 +426,47 @@ def gen_payload_cases(ctx):
                 C.add("atv/resigned-outer/" + m, "atv", V, m, str(k), "1", "R")
         for b in bits(560, 6 * reps):
             C.add("atv/t.sig", "atv", V, "t.sig", str(b), "0", "N")
+    # proof of work, clause by clause: stand-alone BTC headers (nonce re-mined so that only the aimed clause decides) ...
+    for i in range(WORLD["ctx"]):
+        for bits in BTC_BITS:
+            valid = btc_bits_valid(bits)
+            t = compact(bits)[0]
+            if valid and t >= (1 << 244):     # re-mining feasible
+                C.add("btcblock/valid-easy", "btcblock", str(i), "%x" % bits, "easy", "A")
+            if valid and (1 << 250) > t:
+                C.add("btcblock/valid-miss", "btcblock", str(i), "%x" % bits, "miss" if t >= (1 << 200) else "any", "R")
+            if valid and t >= (1 << 250):
+                C.add("btcblock/valid-miss", "btcblock", str(i), "%x" % bits, "miss", "R")
+            if not valid:
+                C.add("btcblock/invalid-bits", "btcblock", str(i), "%x" % bits, "easy", "R")
+    # ... and at every position of blockOfProofContext, pop tx re-signed
+    for V in (["0"] if quick else ["0", "3"]):
+        for i in range(WORLD["ctx"]):
+            last = i == WORLD["ctx"] - 1
+            for bits in BTC_BITS:
+                k = str((i << 32) | bits)
+                if not btc_bits_valid(bits):
+                    C.add("vtb/resigned/t.ctx.bits-invalid", "poptx", V, "t.ctx.bits", k, "1", "R")
+                elif compact(bits)[0] >= (1 << 244):
+                    C.add("vtb/resigned/t.ctx.bits-valid", "poptx", V, "t.ctx.bits", k, "1", "N" if last else "R")
+                    C.add("vtb/resigned/t.ctx.bits-miss", "poptx", V, "t.ctx.bitsmiss", k, "1", "R")
+            C.add("vtb/resigned-outer/t.ctx.bits", "vtb", V, "t.ctx.bits", str((i << 32) | 0x2100ffff), "1", "R")
+    # VBK: compact difficulty clauses (regtest, and regtest with minimum difficulty 3), plausibility clauses
+    for i in range(5):
+        for d in (0x04800001, 0x23000001, 0x01000000, 0, 0x01003456):
+            C.add("vbkblock/diff-invalid", "vbkblock", str(i), "diff", str(d), "R")
+        C.add("vbkblock/mindiff", "vbkblock", str(i), "none", "0", "R", "diff")
+        C.add("vbkblock/mindiff", "vbkblock", str(i), "diff", str(0x01020000), "R", "diff")
+        for d in (0x01030000, 0x01040000):
+            C.add("vbkblock/mindiff", "vbkblock", str(i), "diff", str(d), "A", "diff", "easy")
+            C.add("vbkblock/mindiff", "vbkblock", str(i), "diff", str(d), "R", "diff", "miss")
+        h = i + 1
+        upper = 432000 + (30 * h * 12) // 10
+        C.add("vbkblock/time", "vbkblock", str(i), "none", "0", "A", "time")
+        for k, claim in ((-1, "R"), (0, "A"), (upper, "A"), (upper + 1, "R"), (upper + 100000, "R")):
+            C.add("vbkblock/time", "vbkblock", str(i), "tsrel", str(k), claim, "time")
+        C.add("vbkblock/height", "vbkblock", str(i), "height", str(-(h + 1)), "R")
+        C.add("vbkblock/height", "vbkblock", str(i), "height", str(4097 * 8000 - h), "R")
     # stand-alone VBK headers and header chains
     for i in range(5):
         C.add("vbkblock/honest", "vbkblock", str(i), "none", "0", "A")
@@ -452,7 +522,12 @@ def expected_path(op, c, s):
             return "vbk-check-merkle-path+invalid-merklepath"
         return ("vbk-check-pop-tx+" + poptx_path(c - 10, s)) if op == "vtb" else ("vbk-check-tx+" + vbktx_path(c - 10, s))
     if op == "vbkblock":
-        return {1: "vbk-bad-block", 2: "vbk-bad-pow"}.get(c, "?")
+        if c == 1:
+            return "vbk-bad-block+" + {1: "height-too-low", 2: "height-too-high", 3: "timestamp-too-low", 4: "timestamp-upper-bound",
+                                       5: "timestamp-lower-bound"}.get(s, "?")
+        return {2: "vbk-bad-pow"}.get(c, "?")
+    if op == "btcblock":
+        return "btc-bad-pow"
     if op == "vbkblocks":
         return {1: "vbk-check-block", 2: "vbk-check-block", 3: "invalid-vbk-block"}.get(c, "?")
     if op == "popdata":
